@@ -233,7 +233,7 @@ def catalog_part(rec, pre, seed, k, limit):
     ops = opcatalog.catalog(impl)
     if limit:
         ops = ops[:limit]
-    sg.manual_seed(seed + 1)
+    sg.manual_seed((seed + 1) % 2 ** 32)     # np.random.seed accepts 0 .. 2**32-1
     for op in ops:
         perturb(k, 8)
         ts = []
